@@ -25,6 +25,7 @@ import (
 	"io"
 	"net/http"
 	"net/url"
+	"slices"
 	"time"
 
 	"github.com/rs/zerolog"
@@ -187,9 +188,18 @@ func (e Endpoint) Hash() []byte {
 	hash.Write(stringx.ToBytes(e.Method))
 
 	buf := bytes.NewBufferString("")
-	for k, v := range e.Headers {
+	names := make([]string, 0, len(e.Headers))
+	for k := range e.Headers {
+		names = append(names, k)
+	}
+
+	slices.Sort(names)
+
+	for _, k := range names {
 		buf.Write(stringx.ToBytes(k))
-		buf.Write(stringx.ToBytes(v))
+		buf.WriteByte(0)
+		buf.Write(stringx.ToBytes(e.Headers[k]))
+		buf.WriteByte(0)
 	}
 
 	hash.Write(buf.Bytes())
